@@ -8,7 +8,7 @@ Slice == {x \in Cases : /\ x.level \in {-1, 5}
                         /\ x.status = (IF x.compressible THEN 200 ELSE IF x.setcl THEN 201 ELSE 404)
                         /\ x.flush = (x.explicit = x.compressible)
                         /\ x.interim = (x.setcl /\ x.size \in {"min", "big"})}
-Init == c \in (IF Quick THEN Slice ELSE Cases) \cup BigCases
+Init == c \in (IF Quick THEN Slice ELSE Cases) \cup BigCases \cup ReuseCases
 Next == UNCHANGED c
 Emit == PrintT("CASE " \o ToJson(c))
 =============================================================================
